@@ -101,7 +101,10 @@ func poolReplayChild(a Args) {
 		os.Exit(4)
 	}
 	fmt.Println("STEP batch handed to the reader, batcher held before its write; cutting the connection")
-	st.CutAll()
+	// the fake registers a connection in its serving goroutine: make sure the cut finds it
+	for deadline := time.Now().Add(10 * time.Second); st.CutAll() == 0 && time.Now().Before(deadline); {
+		time.Sleep(time.Millisecond)
+	}
 	select {
 	case <-reconnected:
 	case <-time.After(20 * time.Second):
